@@ -196,6 +196,10 @@ func NewCluster(rc RunConfig, opt Options) *Cluster {
 				peers = append(peers, raft.Peer{ID: v})
 			}
 			n.call("Bootstrap", nil, func() error { return n.rn.Bootstrap(peers) })
+			// Bootstrapping is completed (its first write group made durable)
+			// before the node starts serving; a crash in the middle of it is the
+			// application's problem to repair (it would bootstrap again).
+			c.finishBootstrap(n)
 		}
 	}
 	return c
@@ -226,6 +230,34 @@ func (c *Cluster) raftConfig(n *Node, applied uint64) *raft.Config {
 		cfg.ReadOnlyOption = raft.ReadOnlyLeaseBased
 	}
 	return cfg
+}
+
+func (c *Cluster) finishBootstrap(n *Node) {
+	if !n.up || c.viol != nil {
+		return
+	}
+	if n.cfg.Async {
+		c.doReady(n)
+		for n.up && c.viol == nil && len(n.appendQ) > 0 {
+			c.doAppendStep(n)
+		}
+		n.disk.Sync()
+		for n.up && c.viol == nil && len(n.appendResps) > 0 {
+			c.doAppendResp(n)
+		}
+		return
+	}
+	c.doReady(n)
+	if n.rd != nil {
+		c.doPersist(n)
+		n.disk.Sync()
+		c.doApply(n)
+		if n.up && n.rd != nil {
+			rd := *n.rd
+			n.rd = nil
+			n.call("Advance", nil, func() error { n.rn.Advance(rd); return nil })
+		}
+	}
 }
 
 // startNode (re)creates the RawNode on the node's current page storage.
